@@ -27,7 +27,7 @@ THEOREMS = ['Props.C17.' + t for t in [
     'column_name_from_number_injective', 'node_name_from_number_injective', 'layer_name_from_number_injective',
     'new_dict_key_fresh', 'new_node_name_fresh',
     'add_layers_names', 'uniqstring_alphabet',
-    'block_name_invertible', 'block_name_injective',
+    'block_name_invertible', 'block_name_injective', 'block_name_list_distinct',
     'rectangular_names_distinct', 'rectangular_block_names_distinct', 'rectangular_error_is_naming', 'rectangular_alphabet',
     'fix_idempotent', 'unfix_is_simulator_form', 'name_cycle_stabilises', 'unfix_cycle_stabilises',
 ]]
@@ -610,7 +610,10 @@ def facet_geometries(ctx, R, res, rng, alphas):
                 continue
             budget -= nx * ny * nz
             case = {'fn': 'rectangular', 'nx': nx, 'ny': ny, 'nz': nz, 'convention': conv, 'atmos_type': atmos, 'left': left,
-                    'case': case_, 'chars': chars, 'spaces': spaces}
+                    'case': case_, 'chars': chars, 'spaces': spaces,
+                    # all columns of a rectangular grid have 4 nodes, so the DMPlex order coincides with layer/column order (what the model computes)
+                    'block_order': rng.choice([None, None, 'layer_column', 'dmplex'])}
+            res.count('rectangular:block_order=%s' % case['block_order'])
             r, viol, g = run_rect(R, case)
             res.violations += viol
             full = nx * ny * nz <= 60000
@@ -655,7 +658,8 @@ def run_rect(R, case):
     try:
         with contextlib.redirect_stdout(io.StringIO()):
             g = R.m.mulgrid().rectangular([1.0] * nx, [1.0] * ny, [1.0] * nz, convention=case['convention'], atmos_type=case['atmos_type'],
-                                          justify='l' if case['left'] else 'r', case=case['case'], chars=case['chars'], spaces=case['spaces'])
+                                          justify='l' if case['left'] else 'r', case=case['case'], chars=case['chars'], spaces=case['spaces'],
+                                          block_order=case.get('block_order'))
         r = ('ok', ([n.name for n in g.nodelist], [c.name for c in g.columnlist], [l.name for l in g.layerlist], list(g.block_name_list)))
     except RecursionError:
         r = ('exc', 'Exception')
@@ -698,6 +702,48 @@ def run_rect(R, case):
     return r, viol, g
 
 
+ANCHORED = ['int_to_chars', 'new_dict_key', 'uniqstring', 'fix_blockname', 'unfix_blockname', 'fix_block_mapping', 'valid_blockname',
+            'block_name', 'column_name', 'layer_name', 'node_col_name_from_number', 'column_name_from_number', 'node_name_from_number',
+            'layer_name_from_number', 'new_node_name', 'new_column_name', 'add_layers', 'rectangular', 'setup_block_name_index',
+            'block_name_list_layer_column', 'set_secondary_variables']
+
+
+def measure_reach(ctx, res):
+    """thorough tier: statements of the anchored functions executed by the facets (a facet cannot notice a change to a line it never runs)"""
+    import ast, coverage
+    src = str(core.REPO / 'mulgrids.py')
+    cov = coverage.Coverage(include=[src], data_file=None)
+    cov.start()
+    try:
+        c2 = core.Ctx(ctx.prop, 'quick', ctx.seed)
+        c2.model_ok = False
+        try:
+            run(c2, only=['fix', 'blocks', 'dict', 'geometries'])
+            R = Real()
+            for conv in range(4):
+                g = R.g(conv)
+                for k in (0, 1, 30, 100, 1000, 20000):
+                    for f in (g.column_name_from_number, g.node_name_from_number, g.layer_name_from_number, g.node_col_name_from_number):
+                        call(f, k, str.rjust, LOWER, True); call(f, k, str.ljust, 'ab', False)
+        finally:
+            c2.cleanup()
+    finally:
+        cov.stop()
+    an = cov.analysis2(src)
+    stmts, missing = set(an[1]), set(an[3])
+    tree = ast.parse(open(src).read())
+    tot = hit = 0
+    unexecuted = []
+    for n in ast.walk(tree):
+        if isinstance(n, ast.FunctionDef) and n.name in ANCHORED:
+            lines = [l for l in range(n.lineno + 1, n.end_lineno + 1) if l in stmts]      # the def line itself ran at import time
+            miss = [l for l in lines if l in missing]
+            tot += len(lines); hit += len(lines) - len(miss)
+            unexecuted += ['%s:%d' % (n.name, l) for l in miss]
+    res.stats['reach:anchored-statements-executed'] = '%d/%d' % (hit, tot)
+    res.stats['reach:unexecuted'] = ', '.join(unexecuted) or '-'
+
+
 # ------------------------------------------------------------------ interface
 
 def translate(ctx):
@@ -732,6 +778,8 @@ def run(ctx, only=None):
         t0 = time.time()
         f()
         res.stats['seconds:' + name] = round(time.time() - t0, 1)
+    if not ctx.quick and not only:
+        measure_reach(ctx, res)
     res.hyp['name is 5 characters over letters/digits/blanks (fix/unfix theorems)'] = [res.stats.get('names:structured', 0) + res.stats.get('names:random5', 0)] * 2
     res.exhaustive = False
     return res
